@@ -1689,7 +1689,7 @@ class Interp:
                     return r
         return fn
 
-    CLASS_DECORATORS_TRANSPARENT = {"dataclass", "total_ordering", "final", "runtime_checkable"}
+    CLASS_DECORATORS_TRANSPARENT = {"dataclass", "total_ordering", "final", "runtime_checkable", "unique", "verify"}
 
     def ensure_class(self, name):
         """Apply the class decorators of `name` (and of its bases) once, as the class statement would."""
@@ -1700,6 +1700,12 @@ class Interp:
             ci = self.pkg.classes[c]
             if ci.module in self.pkg.module_effects:
                 self.ensure_module(ci.module)
+            for b_ in self.pkg.mro(c)[1:]:
+                bi = self.pkg.classes[b_]
+                if "__init_subclass__" in bi.methods:
+                    kwargs_ = {k_.arg: self.ev_in_module(k_.value, ci.module) for k_ in ci.node.keywords if k_.arg and k_.arg != "metaclass"}
+                    self.call_function(bi.methods["__init_subclass__"][0], [ClassRef(c)], kwargs_)
+                    break
             for d in reversed(ci.decorators):
                 if _deco_leaf(d) in self.CLASS_DECORATORS_TRANSPARENT:
                     if _deco_leaf(d) == "total_ordering":
@@ -2184,6 +2190,19 @@ class Interp:
 
     def ev_Subscript(self, n, env):
         v = self.ev(n.value, env)
+        if isinstance(v, Opaque) and v.kind == "npfunc" and v.payload[0] in ("c_", "r_"):
+            parts = [self.ev(e, env) for e in (n.slice.elts if isinstance(n.slice, ast.Tuple) else [n.slice])]
+            if any(isinstance(p_, str) for p_ in parts):
+                raise self.unsupported("np.%s with a directive string" % v.payload[0], n)
+            arrs = [p_ if isinstance(p_, Arr) else (self.to_arr(p_, n) if isinstance(p_, (list, tuple)) else Arr([self.scalar(p_, n)], 1)) for p_ in parts]
+            if v.payload[0] == "r_":
+                if all(a_.ndim == 1 for a_ in arrs):
+                    return Arr([x for a_ in arrs for x in a_.data], 1)
+                return self.npfunc("vstack", [arrs], {}, n)
+            cols = [[[x] for x in a_.data] if a_.ndim == 1 else [list(r) for r in a_.data] for a_ in arrs]
+            if len({len(c_) for c_ in cols}) != 1:
+                raise PathRaise("ValueError(np.c_ row mismatch)", self.where(n))
+            return Arr([sum((c_[i] for c_ in cols), []) for i in range(len(cols[0]))], 2)
         if isinstance(v, dict):
             k = self.hashable(self.ev(n.slice, env), n)
             if k not in v:
@@ -2426,6 +2445,12 @@ class Interp:
                 return Poly.const(len(v.flat()))
             if a in ARR_METHODS:
                 return Opaque("arrmeth", v, a)
+            if a == "flags":
+                fl_ = Obj("<flags>")
+                fl_.fields["writeable"] = True
+                return fl_
+            if a == "dtype":
+                return Opaque("dtype", "float64")
             raise self.unsupported("ndarray attribute %s" % a, n)
         if isinstance(v, ClassRef) and v.name in self.pkg.classes and self.pkg.classes[v.name].enum_kind and \
                 a in self.enum_member_names(v.name):
@@ -2509,6 +2534,10 @@ class Interp:
     def module_attr(self, mod, a, n):
         if a == "pi":
             return PI()
+        if a == "tau":
+            return PI() * 2
+        if a == "inf":
+            raise self.unsupported("infinity", n)
         if a == "newaxis":
             return None
         if a in OK_DTYPES:
@@ -2784,6 +2813,8 @@ class Interp:
                 return self.call_function(self.pkg.funcs[f.payload[0]], args)
             if f.kind == "callable":
                 return f.payload[0](*args)
+            if f.kind == "import":
+                return self.imported_call(f.payload[0], list(args), {}, n)
             if f.kind == "pymeth":
                 return self.py_method(f.payload[0], f.payload[1], list(args), {}, n)
             if f.kind == "arrmeth":
@@ -3214,6 +3245,8 @@ class Interp:
                 return r_
             if v is None:
                 raise PathRaise("TypeError(len(None))", self.where(n))
+            if isinstance(v, ClassRef) and v.name in self.pkg.classes and self.pkg.classes[v.name].enum_kind:
+                return Poly.const(len(self.enum_member_names(v.name)))
             if isinstance(v, Obj):
                 f_ = self.dunder(v, "__len__")
                 if f_ is not None:
@@ -3957,6 +3990,9 @@ class Interp:
                 return Arr([fill for _ in range(dims[0])], 1)
             if len(dims) == 2:
                 return Arr([[fill for _ in range(dims[1])] for _ in range(dims[0])], 2)
+        if name == "reshape" and len(args) >= 2:
+            shp_ = args[1] if isinstance(args[1], tuple) else tuple(args[1:])
+            return self.arr_method(self.to_arr(args[0], n), "reshape", [shp_], {}, n)
         if name == "cumsum" and len(args) == 1 and "axis" not in kw:
             fl_ = self.to_arr(args[0], n).flat()
             out_, acc_ = [], Poly()
@@ -4057,9 +4093,16 @@ class Interp:
         if name == "fill_diagonal":
             a = args[0]
             if isinstance(a, Arr) and a.ndim == 2:
-                v_ = self.scalar(args[1], n)
-                for i in range(min(a.shape)):
-                    a.data[i][i] = v_
+                k_ = min(a.shape)
+                if isinstance(args[1], (list, tuple, Arr)):
+                    vals_ = self.to_arr(args[1], n).flat()
+                    if len(vals_) < k_:
+                        vals_ = (vals_ * k_)[:k_]       # numpy repeats a shorter value sequence
+                else:
+                    vals_ = [self.scalar(args[1], n)] * k_
+                for i in range(k_):
+                    a.data[i][i] = vals_[i]
+                self.after_write(a)
                 return None
         if name == "diag_indices":
             k_ = self.intval(args[0], n)
